@@ -729,12 +729,18 @@ def gen_codec():
              "From Coq Require Import List Arith ZArith Bool.", "Import ListNotations.",
              "From PF Require Import Arr.", "From PFG Require Import GenTables GenDrdc.", ""]
     trees, reg = {}, {}
+    # one function that is no longer understood must not take the others (which belong to other properties) with it: it is left
+    # out, so that exactly the equality proofs that mention it (or a function calling it) stop compiling
     for spec in FUNCS:
         fn = spec["fn"]
-        tree = trees.setdefault(fn, parse(fn))
-        if sum(isinstance(n, ast.FunctionDef) and n.name == spec["name"] for n in tree.body) != 1:
-            raise GenError(f"{fn}: {spec['name']} is not defined exactly once")
-        text, info = Fn(spec, tree, reg).translate()
+        try:
+            tree = trees.setdefault(fn, parse(fn))
+            if sum(isinstance(n, ast.FunctionDef) and n.name == spec["name"] for n in tree.body) != 1:
+                raise GenError(f"{fn}: {spec['name']} is not defined exactly once")
+            text, info = Fn(spec, tree, reg).translate()
+        except GenError as e:
+            parts += ["(* NOT TRANSLATED: %s.%s -- %s *)" % (fn, spec["name"], str(e).replace("*)", "* )")), ""]
+            continue
         reg[(fn, spec["name"])] = info
         parts += [text, ""]
     return "\n".join(parts)
